@@ -31,6 +31,11 @@ func main() {
 				if be, ok := r.(brokenError); ok {
 					fmt.Printf("BROKEN: %s\n", be.msg)
 					code = 2
+					// the tree loads and type-checks but a construct the property is anchored in is gone: the property
+					// cannot be shown to hold on this tree, which is reported like any other undecided obligation
+					if strings.HasPrefix(be.msg, "unresolved anchor") && *prop != "" {
+						code = reportUndecidedOnly(*prop, *outDir, be.msg)
+					}
 					return
 				}
 				fmt.Printf("BROKEN: analyser panic: %v\n%s\n", r, debug.Stack())
